@@ -6,4 +6,8 @@ export PYTHONPATH="$here/.deps${PYTHONPATH:+:$PYTHONPATH}"
 if ! "$PY" -c 'import hypothesis' 2>/dev/null; then
   "$PY" -m pip install --no-index --find-links /opt/veriftools/wheels --target "$here/.deps" hypothesis || exit 1
 fi
+if ! "$PY" -c 'import atheris' 2>/dev/null; then
+  # optional: coverage-guided units of C01/C20 (they skip themselves, with a note in the evidence, when atheris is unavailable)
+  "$PY" -m pip install --quiet --no-index --find-links /opt/veriftools/wheels --target "$here/.deps" atheris || echo "atheris not installed (optional)"
+fi
 "$PY" -c 'import hypothesis; print("hypothesis", hypothesis.__version__)'
